@@ -984,6 +984,67 @@ func main() {
 	}
 	b.WriteString("]\n\n")
 
+	// row ids taken from inserts
+	b.WriteString("/-- every `LastInsertId()` with the kind of the INSERT statement that precedes it in its function (plain, or-ignore, on-conflict, or-replace, none): after an insert that did not insert, SQLite's last row id is that of some earlier insert on the connection -/\ndef insertIds : List (Bytes × Bytes) := [\n")
+	{
+		var rows []string
+		for pkg, fs := range pkgs {
+			if pkg == "helpers" || strings.HasPrefix(pkg, "cmd_") {
+				continue
+			}
+			for name, fd := range fs {
+				if strings.HasPrefix(funcFile[pkg+"."+name], "testing_") {
+					continue
+				}
+				type lit struct {
+					pos  token.Pos
+					kind string
+				}
+				var inserts []lit
+				var calls []token.Pos
+				ast.Inspect(fd.Body, func(n ast.Node) bool {
+					switch x := n.(type) {
+					case *ast.BasicLit:
+						if x.Kind == token.STRING {
+							u := strings.ToUpper(x.Value)
+							if strings.Contains(u, "INSERT") {
+								k := "plain"
+								switch {
+								case strings.Contains(u, "OR IGNORE"):
+									k = "or-ignore"
+								case strings.Contains(u, "ON CONFLICT"):
+									k = "on-conflict"
+								case strings.Contains(u, "OR REPLACE"):
+									k = "or-replace"
+								}
+								inserts = append(inserts, lit{x.Pos(), k})
+							}
+						}
+					case *ast.SelectorExpr:
+						if x.Sel.Name == "LastInsertId" {
+							calls = append(calls, x.Pos())
+						}
+					}
+					return true
+				})
+				for _, c := range calls {
+					k := "none"
+					for _, in := range inserts {
+						if in.pos < c {
+							k = in.kind
+						}
+					}
+					rows = append(rows, fmt.Sprintf("  (%s, %s),\n", lb(pkg+"."+name), lb(k)))
+				}
+			}
+		}
+		sort.Strings(rows)
+		for _, r := range rows {
+			b.WriteString(r)
+		}
+	}
+	b.WriteString("]\n\n")
+
 	// calls that end the process from inside the service packages (not cmd/*, not the test-support files)
 	b.WriteString("structure ExitFact where\n  pkg : Bytes\n  inFunc : Bytes\n  call : Bytes\nderiving Repr\n\n")
 	b.WriteString("def exitCalls : List ExitFact := [\n")
